@@ -61,7 +61,7 @@ type input struct {
 	Spec string `json:"spec"`
 }
 
-var kwPool = []string{"a", "b", "ab", "aa", "aba", "if", "in", "int", "+", "++", "=", "==", "b9", `"`, `\`, `a"b`, `\\`, `i"`, "n", "9"}
+var kwPool = []string{"a", "b", "ab", "aa", "aba", "if", "in", "int", "+", "++", "=", "==", "b9", `"`, `\`, `a"b`, `\\`, `i"`, "n", "9", `a\b`, `\x`, `\\`, `x\y`, "xy"}
 
 func escapeLiteral(s string) string {
 	var b strings.Builder
